@@ -160,6 +160,43 @@ def broker_histories(ctx: RunCtx) -> BoundedResult:
     return res
 
 
+def large_batches(ctx: RunCtx) -> BoundedResult:
+    """Bounded stand-in: batches larger than any plausible chunk / page / bound size through route_invocations on both real brokers."""
+    from .realapp import real_app
+    res = BoundedResult("large_batches", "route_invocations with batches of 1, 499, 500, 501, 620, 1000, 1001 and 10001 ids (and 10 001 single routings) on the in-memory "
+                        "and the SQLite broker: every id is delivered exactly once, in routing order, and count_invocations agrees before the drain")
+    n = 0
+    for backend in ("mem", "sqlite"):
+        sizes = (1, 499, 500, 501, 620, 1000, 1001) + ((10001,) if backend == "mem" or ctx.tier == "thorough" else ())
+        for size in sizes:
+            n += 1
+            with real_app(backend) as app:
+                ids = [f"b{size}-{k:05d}" for k in range(size)]
+                app.broker.route_invocations(list(ids))
+                cnt = app.broker.count_invocations()
+                got = []
+                while (i := app.broker.retrieve_invocation()) is not None:
+                    got.append(i)
+                if cnt != size or got != ids:
+                    res.failures.append({"what": f"{backend}: batch of {size} ids: count says {cnt}, {len(got)} delivered, order kept: {got == ids[:len(got)]}, "
+                                                 f"{len(set(ids) - set(got))} never delivered", "input": {"batch": size}, "finding_key": f"{backend}:batch"})
+        n += 1
+        with real_app(backend) as app:
+            m = 10001 if backend == "mem" else 1200
+            ids = [f"s-{k:05d}" for k in range(m)]
+            for i in ids:
+                app.broker.route_invocation(i)
+            cnt = app.broker.count_invocations()
+            first = app.broker.retrieve_invocation()
+            if cnt != m or first != ids[0]:
+                res.failures.append({"what": f"{backend}: {m} single routings: count says {cnt}, first delivered is {first} (expected {ids[0]})",
+                                     "input": {"singles": m}, "finding_key": f"{backend}:many-singles"})
+    res.cases = n
+    res.distinct = n
+    res.samples = [{"batch": 620}]
+    return res
+
+
 def build(ctx: RunCtx) -> Prop:
     T = Types(ctx.src)
     reg = base_registry(ctx.src, T)
@@ -170,7 +207,7 @@ def build(ctx: RunCtx) -> Prop:
         pid=PID, title="MemBroker operations against a sequence view (append at tail, pop head, length, clear); FIFO / exactly-once as an "
                        "inductive lemma over the contracts; SQLiteBroker glue (statement order, bound parameters, BEGIN IMMEDIATE ownership)",
         level="proof", technique="contract-based deductive verification (AST->z3 sequence VCs) + lemma over contracts + bounded history enumeration for the SQL statements",
-        registry=reg, verify=verify, lemmas=[fifo_lemmas, queue_representation] + c08_sqlite.lemmas(reg, ctx), bounded=[broker_histories],
+        registry=reg, verify=verify, lemmas=[fifo_lemmas, queue_representation] + c08_sqlite.lemmas(reg, ctx), bounded=[broker_histories, large_batches],
         assumptions=["collections.deque append/popleft/clear/len have list semantics", "SQL statement meaning is not proved (bounded stand-in only)",
                      "BEGIN IMMEDIATE gives a single writer until commit/rollback (SQLite)",
                      "the query planner serves ORDER BY created_at from the created_at index whose ties are in rowid order"],
